@@ -432,9 +432,32 @@ def to_poly_params(t, env):
 def polynomial_laws(prog):
     PA = SR + "polynomial_semiring_implementation::Polynomial"
     out = []
+    def slot(t):
+        """`*arr.get_mut(i)?` read or written is arr[i]"""
+        t = strip(t)
+        while isinstance(t, tuple) and t and t[0] in ("deref", "ref"):
+            t = strip(t[1])
+        if isinstance(t, tuple) and t and t[0] == "field" and t[2] == "0" and isinstance(t[1], tuple) and t[1][0] == "as" and t[1][2] == "Some":
+            g = strip(t[1][1])
+            if (mir.is_call(g, "get_mut") or mir.is_call(g, "get")) and len(g[2]) == 2:
+                base = strip(g[2][0])
+                while isinstance(base, tuple) and base and base[0] in ("cast", "ref", "deref"):
+                    base = strip(base[2] if base[0] == "cast" else base[1])
+                return ("index", base, g[2][1])
+        return t
+
+    def canon_slots(t):
+        t = slot(t)
+        if not isinstance(t, tuple) or not t:
+            return t
+        if t[0] == "call":
+            return (t[0], t[1], tuple(canon_slots(a) for a in t[2])) + tuple(t[3:])
+        return tuple(canon_slots(a) if isinstance(a, tuple) else a for a in t)
+
     mul = prog.find1(name="mul", self_adt=PA, impl_trait="std::ops::Mul", unit="rsdd-lib")
     te = mul.terms
-    stores = [s for s in te.stores if s[1][0] == "index"]
+    stores = [(bb, canon_slots(pt), canon_slots(val), line) for bb, pt, val, line in te.stores]
+    stores = [s for s in stores if s[1][0] == "index"]
     errs = []
     if len(stores) != 1:
         errs.append("%sexpected one coefficient write in the body of mul, found %d" % ("?" if not stores else "", len(stores)))
@@ -468,7 +491,50 @@ def polynomial_laws(prog):
     te = add.terms
     stores = [s for s in te.stores if s[1][0] == "index"]
     errs = []
-    if len(stores) != 1:
+    zipped = None
+    if not stores:
+        # new.iter_mut().zip(a.iter().zip(b.iter())).take(n).for_each(|(slot, (x, y))| *slot = x + y)
+        for cs in te.calls:
+            if cs.callee.name != "for_each" or len(cs.args) != 2:
+                continue
+            src = strip(cs.args[0])
+            while mir.is_call(src, "take") or mir.is_call(src, "into_iter"):
+                src = strip(src[2][0])
+            clo = strip(cs.args[1])
+            cf = [g for g in prog.lib_fns if isinstance(clo, tuple) and clo and clo[0] == "agg" and clo[1] == "closure" and g.npath == clo[2]]
+            if mir.is_call(src, "zip") and mir.is_call(strip(src[2][0]), "iter_mut") and mir.is_call(strip(src[2][1]), "zip") and len(cf) == 1:
+                inner = strip(src[2][1])
+                ops_ = sorted(show(strip(a_))[-17:] for a_ in inner[2])
+                sts = cf[0].terms.stores
+                if len(sts) == 1:
+                    tgt, v_ = show(strip(sts[0][1])), strip(sts[0][2])
+                    parts = sorted(show(strip(x_)) for x_ in (v_[2:4] if v_[0] == "bin" and v_[1] == "Add" else (v_[2] if mir.is_call(v_, "add") else [])))
+                    zipped = (tgt == "arg2.0" and parts == ["arg2.1.0", "arg2.1.1"] and ops_ == ["arg1.coefficients", "arg2.coefficients"])
+    if zipped is None and not stores:
+        # the same as a `for` loop over the zipped iterators
+        for (bb, pt, val, line) in te.stores:
+            p_, v_ = strip(pt), strip(val)
+            item = p_[1] if p_[0] == "field" and p_[2] == "0" else None
+            its = [x for x in mir.subterms(p_) if mir.is_call(x, "next") and x[2] and strip(x[2][0])[0] == "mutref"]
+            if item is None or not its:
+                continue
+            init = None
+            for (h, l), i_ in te.mu_init.items():
+                if l == strip(its[0][2][0])[1]:
+                    init = strip(i_)
+            src = init
+            while src is not None and (mir.is_call(src, "take") or mir.is_call(src, "into_iter")):
+                src = strip(src[2][0])
+            if src is not None and mir.is_call(src, "zip") and mir.is_call(strip(src[2][0]), "iter_mut") and mir.is_call(strip(src[2][1]), "zip"):
+                inner = strip(src[2][1])
+                ops_ = sorted(show(strip(a_))[-17:] for a_ in inner[2])
+                parts = sorted(show(strip(x_)) for x_ in (v_[2:4] if v_[0] == "bin" and v_[1] == "Add" else (v_[2] if mir.is_call(v_, "add") else [])))
+                want = sorted([show(("field", ("field", item, "1", None), "0", None)), show(("field", ("field", item, "1", None), "1", None))])
+                zipped = (parts == want and ops_ == ["arg1.coefficients", "arg2.coefficients"])
+    if zipped is not None:
+        if not zipped:
+            errs.append("the zipped sum is not new[i] = self[i] + rhs[i]")
+    elif len(stores) != 1:
         errs.append("%sexpected one coefficient write in the body of add, found %d" % ("?" if not stores else "", len(stores)))
     else:
         bb, pt, val, line = stores[0]
